@@ -3,6 +3,7 @@ package main
 import (
 	"encoding/json"
 	"go/ast"
+	"go/types"
 	"fmt"
 	"os"
 	"path/filepath"
@@ -182,7 +183,11 @@ func stem(key string, fnNames map[string]bool) string {
 			continue
 		}
 		if fnNames[seg] {
-			continue // an unexported package-level function of the analysed program
+			continue // a renameable identifier
+		}
+		// imported obligations carry "R6:<first segment of the source key>"
+		if i := strings.Index(seg, ":"); i > 0 && fnNames[seg[i+1:]] {
+			seg = seg[:i+1]
 		}
 		// "#2" only enumerates the instances of one construct
 		if i := strings.LastIndex(seg, "#"); i > 0 {
@@ -201,28 +206,78 @@ func stem(key string, fnNames map[string]bool) string {
 	return strings.Join(out, "/")
 }
 
-func stems(c *core.Ctx) map[string]bool {
-	m := map[string]bool{}
-	fnNames := map[string]bool{}
-	for _, fn := range c.P.Funcs {
+// unexportedNames: the unexported identifiers of the analysed program that can show up as a key segment:
+// package-level functions, named types, struct fields, parameters.
+func unexportedNames(p *core.Prog) map[string]bool {
+	names := map[string]bool{}
+	for _, fn := range p.Funcs {
 		if fn.Parent() == nil && fn.Signature.Recv() == nil && fn.Name() != "" && !ast.IsExported(fn.Name()) {
-			fnNames[fn.Name()] = true
+			names[fn.Name()] = true
+		}
+		for _, prm := range fn.Params {
+			if prm.Name() != "" {
+				names[prm.Name()] = true
+			}
 		}
 	}
-	for _, o := range c.Obs {
-		if strings.Contains(o.Key, "<floor>") || strings.Contains(o.Key, "/anchors/") || strings.Contains(o.Key, "/internal/") {
+	for _, pk := range p.Pkgs {
+		if pk.Types == nil {
 			continue
 		}
-		m[stem(o.Key, fnNames)] = true
+		sc := pk.Types.Scope()
+		for _, nm := range sc.Names() {
+			tn, ok := sc.Lookup(nm).(*types.TypeName)
+			if !ok {
+				continue
+			}
+			if !tn.Exported() {
+				names[tn.Name()] = true
+			}
+			if st, ok := tn.Type().Underlying().(*types.Struct); ok {
+				for i := 0; i < st.NumFields(); i++ {
+					if f := st.Field(i); !f.Exported() {
+						names[f.Name()] = true
+					}
+				}
+			}
+		}
 	}
-	return m
+	return names
+}
+
+// stems of the obligations of c. Renameable identifiers are dropped from the keys: those of the blessed
+// tree (recorded in the reference file, so that a literal key segment that happens to equal one of them is
+// dropped on every tree alike) and, in the second set, also those of the analysed program.
+func stemSets(c *core.Ctx) (blessedOnly, withOwn map[string]bool) {
+	blessedOnly, withOwn = map[string]bool{}, map[string]bool{}
+	own := unexportedNames(c.P)
+	both := map[string]bool{}
+	for k := range refNames {
+		both[k] = true
+	}
+	for k := range own {
+		both[k] = true
+	}
+	for _, o := range c.Obs {
+		if strings.Contains(o.Key, "<floor>") || strings.Contains(o.Key, "/anchors/") || strings.Contains(o.Key, "/internal/") || strings.Contains(o.Key, "/coverage/") {
+			continue
+		}
+		blessedOnly[stem(o.Key, refNames)] = true
+		withOwn[stem(o.Key, both)] = true
+	}
+	return
+}
+
+func stems(c *core.Ctx) map[string]bool {
+	_, w := stemSets(c)
+	return w
 }
 
 func missingStems(base map[string]bool, c *core.Ctx) []string {
-	have := stems(c)
+	a, b := stemSets(c)
 	var out []string
 	for s := range base {
-		if !have[s] {
+		if !a[s] && !b[s] {
 			out = append(out, s)
 		}
 	}
@@ -233,18 +288,27 @@ func missingStems(base map[string]bool, c *core.Ctx) []string {
 // (/verif/reference_stems.json, regenerated with -write-stems whenever rules change). A normal form is
 // accepted only when it examines all of them. Without the file no normal form is accepted.
 var refStems = map[string]map[string]bool{}
+var refNames = map[string]bool{}
 var refStemsLoaded bool
+
+type refFile struct {
+	Identifiers []string            `json:"unexported_identifiers_of_the_blessed_tree"`
+	Stems       map[string][]string `json:"obligation_kinds"`
+}
 
 func loadRefStems(verif string) {
 	b, err := os.ReadFile(filepath.Join(verif, "reference_stems.json"))
 	if err != nil {
 		return
 	}
-	raw := map[string][]string{}
-	if json.Unmarshal(b, &raw) != nil {
+	var rf refFile
+	if json.Unmarshal(b, &rf) != nil || rf.Stems == nil {
 		return
 	}
-	for id, ss := range raw {
+	for _, n := range rf.Identifiers {
+		refNames[n] = true
+	}
+	for id, ss := range rf.Stems {
 		refStems[id] = map[string]bool{}
 		for _, s := range ss {
 			refStems[id][s] = true
@@ -254,15 +318,25 @@ func loadRefStems(verif string) {
 }
 
 func writeRefStems(verif string, all map[string]*core.Ctx) error {
-	raw := map[string][]string{}
+	rf := refFile{Stems: map[string][]string{}}
+	for _, c := range all {
+		for n := range unexportedNames(c.P) {
+			refNames[n] = true
+		}
+		break
+	}
+	for n := range refNames {
+		rf.Identifiers = append(rf.Identifiers, n)
+	}
+	sort.Strings(rf.Identifiers)
 	for id, c := range all {
 		var ss []string
 		for s := range stems(c) {
 			ss = append(ss, s)
 		}
 		sort.Strings(ss)
-		raw[id] = ss
+		rf.Stems[id] = ss
 	}
-	b, _ := json.MarshalIndent(raw, "", " ")
+	b, _ := json.MarshalIndent(rf, "", " ")
 	return os.WriteFile(filepath.Join(verif, "reference_stems.json"), append(b, '\n'), 0o644)
 }
